@@ -60,6 +60,8 @@ def run(check, an: Analysis):
             continue
         conds = []
         for event in path.events:
+            if event.fn is not sub.fn:
+                continue   # inside an inlined helper
             if event.kind == 'test' and event.depth == 0:
                 conds.append((ast.unparse(event.node), event['value']))
             elif event.kind == 'handler':
@@ -90,89 +92,110 @@ def run(check, an: Analysis):
                    where_fn(sub.fn), 'identity -> True; no template -> False; same template: '
                    'unspecialised -> True else the specialisation predicate; other template '
                    '-> False (%d return paths)' % len(table), analysed=len(table))
-    inst = an.method(META, '__instancecheck__')
-    rets = [n for n in ast.walk(inst.node) if isinstance(n, ast.Return)]
-    iparams = [a.arg for a in inst.node.args.args]
-    check.instance('B', '__instancecheck__', len(rets) == 1 and ast.unparse(
-        rets[0].value) == '%s.__subclasscheck__(type(%s))' % tuple(iparams),
-        where_fn(inst), 'isinstance delegates to issubclass(type(instance), cls)')
+    inst = an.callee(META, '__instancecheck__')
+    iparams = [a.arg for a in inst.fn.node.args.args]
+    forms = {rules.value_text(p, len(p.events), p.outcome[1]) for p in an.paths(inst)
+             if p.kind == 'return' and p.outcome[1] is not None}
+    check.instance('B', '__instancecheck__', forms == {
+        '%s.__subclasscheck__(type(%s))' % tuple(iparams)}, where_fn(inst.fn),
+        'isinstance delegates to issubclass(type(instance), cls): %s' % sorted(forms))
     # ---- N ------------------------------------------------------------------
     getspec = an.callee(META, '_get_specialisation')
     gfn = getspec.fn
-    key_defs = [n for n in ast.walk(gfn.node) if isinstance(n, ast.Assign)
-                and isinstance(n.value, ast.Call)
-                and ast.unparse(n.value.func) == 'frozenset']
-    item = gfn.node.args.args[1].arg
-    key = ast.unparse(key_defs[0].targets[0]) if key_defs else '?'
-    check.instance('N', 'key=frozenset(item)', len(key_defs) == 1 and
-                   ast.unparse(key_defs[0].value) == 'frozenset(%s)' % item, where_fn(gfn),
-                   'order and multiplicity of the listed types are irrelevant')
+    me, item = gfn.node.args.args[0].arg, gfn.node.args.args[1].arg
+    KEY = 'frozenset(%s)' % item
     hit = miss = False
+    key_ok, n_key = True, 0
+    created_ok, n_created, bases = True, 0, '?'
     for path in an.paths(getspec):
         if path.kind != 'return':
             continue
-        looked = [i for i, e in enumerate(path.events) if e.kind == 'subscript'
-                  or (e.kind == 'handler' and e['exc'] == 'ext:KeyError')]
-        created = [i for i, e in enumerate(path.events) if e.kind == 'call'
+        events = path.events
+        lookups = [(i, e) for i, e in enumerate(events) if e.kind == 'subscript'
+                   or (e.kind == 'handler' and e['exc'] == 'ext:KeyError')]
+        created = [(i, e) for i, e in enumerate(events) if e.kind == 'call'
                    and isinstance(e.node, ast.Call)
                    and rules.text_at(path, e, e.node.func) == 'MetaConcurrent']
-        stored = [i for i, e in enumerate(path.events) if e.kind == 'store'
-                  and e.get('base') and e['base'].endswith('__specialisations__')]
+        stored = [(i, e) for i, e in enumerate(events) if e.kind == 'store'
+                  and isinstance(e.node, ast.Subscript)
+                  and rules.value_text(path, i, e.node.value).endswith('__specialisations__')]
+        reads = [(i, e) for i, e in enumerate(events) if e.kind == 'subscript'
+                 and isinstance(e.node, ast.Subscript)
+                 and rules.value_text(path, i, e.node.value).endswith('__specialisations__')]
+        for i, e in stored + reads:
+            n_key += 1
+            key_ok &= rules.value_text(path, i, e.node.slice) == KEY
+        for i, e in enumerate(events):
+            # successful look-ups show as the value that is stored or returned
+            value = e.data.get('value') if e.kind == 'store' else None
+            if isinstance(value, ast.Subscript) and rules.value_text(
+                    path, i, value.value).endswith('__specialisations__'):
+                n_key += 1
+                key_ok &= rules.value_text(path, i, value.slice) == KEY
+        returned = rules.value_expr(path, len(events), path.outcome[1])
         if created:
             miss = True
-            ok = bool(stored) and created[0] < stored[0] and any(
-                e.kind == 'handler' and e['exc'] == 'ext:KeyError'
-                for e in path.events[:created[0]]) and \
-                ast.unparse(path.events[stored[0]].node.slice) == key
+            at, call = created[0]
+            missed = any(e.kind == 'handler' and e['exc'] == 'ext:KeyError'
+                         for e in events[:at])
+            ok = len(created) == 1 and len(stored) == 1 and at < stored[0][0] and missed \
+                and stored[0][1]['value'] is not None and rules.value_expr(
+                    path, stored[0][0], stored[0][1]['value']) is not None and \
+                ast.unparse(rules.value_expr(path, stored[0][0], stored[0][1]['value'])) \
+                == ast.unparse(returned)
             check.instance('N', 'miss:create-and-store-under-key', ok, where_fn(gfn),
-                           'a class is created only after the lookup missed and is stored '
-                           'under the same key', path=rules.path_lines(path))
+                           'a class is created only after the lookup missed, stored under '
+                           'the same key and returned', path=rules.path_lines(path))
+            # what the new class is made of
+            n_created += 1
+            node = call.node
+            kws = {kw.arg: rules.value_expr(path, at, kw.value) for kw in node.keywords}
+            incl = kws.get('inclusive')
+            good = incl is not None and ast.unparse(incl) == '... in %s' % KEY
+            spec = kws.get('specialisations')
+            seq = rules.mapped_sequence(None, spec) if spec is not None else None
+            good &= seq is not None and seq[0] == KEY and seq[1] == 'x_' and \
+                seq[2] is not None and equal_bool(ast.parse(seq[2], mode='eval').body,
+                                                  'x_ is not ...')
+            good &= set(kws) == {'specialisations', 'inclusive'}
+            created_ok &= bool(good)
+            if len(node.args) > 1:
+                bases = rules.value_text(path, at, node.args[1])
         else:
             hit = True
-            check.instance('N', 'hit:returns-cached', not stored, where_fn(gfn),
+            check.instance('N', 'hit:returns-cached', not stored and
+                           ast.unparse(returned) == '%s.__specialisations__[%s]' % (me, KEY),
+                           where_fn(gfn),
                            'an existing specialisation is returned (identical class)',
                            path=rules.path_lines(path))
+    check.instance('N', 'key=frozenset(item)', key_ok and n_key > 0, where_fn(gfn),
+                   'the cache is read and written under frozenset(item): order and '
+                   'multiplicity of the listed types are irrelevant (%d accesses on paths)'
+                   % n_key, analysed=n_key)
     check.instance('N', 'hit-and-miss', hit and miss, where_fn(gfn),
                    'both the cached and the creating path exist')
-    incl = [n for n in ast.walk(gfn.node) if isinstance(n, ast.Assign)
-            and ast.unparse(n.targets[0]) == 'inclusive']
-    check.instance('N', 'inclusive=(... in key)', len(incl) == 1 and
-                   ast.unparse(incl[0].value) == '... in %s' % key, where_fn(gfn),
-                   'a trailing ... makes the specialisation inclusive')
-    specs = [n for n in ast.walk(gfn.node) if isinstance(n, ast.Assign)
-             and ast.unparse(n.targets[0]) == 'specialisations']
-    ok = False
-    if len(specs) == 1 and isinstance(specs[0].value, ast.Call) and \
-            ast.unparse(specs[0].value.func) == 'tuple' and \
-            isinstance(specs[0].value.args[0], ast.GeneratorExp):
-        gen = specs[0].value.args[0]
-        comp = gen.generators[0]
-        var = ast.unparse(comp.target)
-        ok = ast.unparse(comp.iter) == key and ast.unparse(gen.elt) == var and \
-            len(comp.ifs) == 1 and equal_bool(comp.ifs[0], '%s is not ...' % var)
-    check.instance('N', 'specialisations-exclude-ellipsis', ok, where_fn(gfn),
-                   'the listed types are the key without ...')
-    created = [n for n in ast.walk(gfn.node) if isinstance(n, ast.Call)
-               and ast.unparse(n.func) == 'MetaConcurrent']
-    kws = {kw.arg: ast.unparse(kw.value) for kw in created[0].keywords} if created else {}
-    bases = ast.unparse(created[0].args[1]) if created and len(created[0].args) > 1 else '?'
-    check.instance('N', 'created-class-carries-spec', kws == {
-        'specialisations': 'specialisations', 'inclusive': 'inclusive'}, where_fn(gfn),
-        'the new class records its specialisations and inclusiveness')
-    new = an.method(CONCURRENT, '__new__')
-    picks = [n for n in ast.walk(new.node) if isinstance(n, ast.Subscript)
-             and isinstance(n.ctx, ast.Load) and isinstance(n.slice, ast.Call)
-             and ast.unparse(n.slice.func) == 'tuple']
-    vararg = new.node.args.vararg.arg if new.node.args.vararg else '?'
-    ok = False
-    if len(picks) == 1 and isinstance(picks[0].slice.args[0], ast.GeneratorExp):
-        gen = picks[0].slice.args[0]
-        comp = gen.generators[0]
-        ok = ast.unparse(comp.iter) == vararg and not comp.ifs and \
-            ast.unparse(gen.elt) == 'type(%s)' % ast.unparse(comp.target)
-    check.instance('N', 'Concurrent.__new__:by-child-types', ok, where_fn(new),
-                   'Concurrent(*children) is of type cls[tuple(type(child) for child in '
-                   'children)]')
+    check.instance('N', 'created-class-carries-spec', created_ok and n_created > 0,
+                   where_fn(gfn), 'the new class records inclusive = (... in key) and '
+                   'specialisations = the key without ... (%d creations on paths)'
+                   % n_created, analysed=n_created)
+    new = an.callee(CONCURRENT, '__new__')
+    vararg = new.fn.node.args.vararg.arg if new.fn.node.args.vararg else '?'
+    ok, n_pick = True, 0
+    for path in an.paths(new):
+        for index, event in enumerate(path.events):
+            picked = event.data.get('value') if event.kind == 'store' else (
+                event.node if event.kind == 'subscript' else None)
+            if isinstance(picked, ast.Subscript) and \
+                    rules.value_text(path, index, picked.value) == \
+                    new.fn.node.args.args[0].arg:
+                n_pick += 1
+                chosen = rules.value_expr(path, index, picked.slice)
+                seq = rules.mapped_sequence(new.fn.node, chosen)
+                ok &= seq == (vararg, 'type(x_)', None) and isinstance(
+                    chosen, ast.Call) and ast.unparse(chosen.func) == 'tuple'
+    check.instance('N', 'Concurrent.__new__:by-child-types', ok and n_pick > 0,
+                   where_fn(new.fn), 'Concurrent(*children) is of type cls[tuple(type(child) '
+                   'for child in children)] (%d specialisations on paths)' % n_pick)
     getitem = an.callee(META, '__getitem__')
     rets = {}
     for path in an.paths(getitem):
@@ -188,7 +211,7 @@ def run(check, an: Analysis):
     # ---- X ------------------------------------------------------------------
     is_exception = 'ext:BaseException' in an.cls(CONCURRENT).mro
     overrides = an.p.find_method(META, '__subclasscheck__') is not None
-    related = bases != '(cls,)' and 'specialisations' in bases
+    related = bases != '(%s,)' % me and 'specialisations' in bases
     check.instance('X', 'MetaConcurrent.__subclasscheck__:except-clause-agreement',
                    not (is_exception and overrides) or related, where_fn(gfn),
                    'Concurrent derives from BaseException and its metaclass overrides '
@@ -197,29 +220,75 @@ def run(check, an: Analysis):
                    'clause (which uses the real MRO) disagrees with isinstance/issubclass'
                    % bases)
     # ---- L ------------------------------------------------------------------
-    flat = an.method(CONCURRENT, 'flattened')
-    loops = [n for n in ast.walk(flat.node) if isinstance(n, ast.For)]
-    ok = False
-    detail = 'loop over the children not found'
-    if len(loops) == 1 and ast.unparse(loops[0].iter) == 'self.children':
-        loop = loops[0]
-        var = ast.unparse(loop.target)
-        branches = [n for n in loop.body if isinstance(n, ast.If)]
-        if len(branches) == 1 and len(loop.body) == 1:
-            br = branches[0]
-            nested = ast.unparse(br.test) == 'isinstance(%s, Concurrent)' % var
-            ext = len(br.body) == 1 and ast.unparse(br.body[0]).endswith(
-                '.extend(%s.flattened().children)' % var)
-            app = len(br.orelse) == 1 and ast.unparse(br.orelse[0]).endswith(
-                '.append(%s)' % var)
-            target = ast.unparse(br.body[0]).split('.extend')[0] if ext else '?'
-            made = [n for n in ast.walk(flat.node) if isinstance(n, ast.Call)
-                    and ast.unparse(n.func) == 'Concurrent']
-            built = len(made) == 1 and [ast.unparse(a) for a in made[0].args] == [
-                '*%s' % target]
-            ok = nested and ext and app and built
-            detail = ('nested failures are flattened recursively in place (%s, %s), leaves '
-                      'are appended in order (%s), the result is Concurrent(*leafs) (%s)'
-                      % (nested, ext, app, built))
-    check.instance('L', 'flattened', ok, where_fn(flat), detail)
+    flat = an.callee(CONCURRENT, 'flattened')
+    CHILDREN = 'self.children'
+
+    def nested(it, upto=None):
+        return it.atoms(upto=upto).get(('truth', 'isinstance(%s, Concurrent)' % it.var))
+    ok_self, ok_build, n_self, n_build, bad = True, True, 0, 0, None
+    for path in an.paths(flat):
+        if path.kind != 'return':
+            continue
+        its = [it for it in rules.iterations(path) if it.source == CHILDREN]
+        returned = rules.value_expr(path, len(path.events), path.outcome[1])
+        if ast.unparse(returned) == 'self':
+            # nothing nested: some complete pass over the children found no Concurrent
+            n_self += 1
+            passes = {}
+            for it in its:
+                passes.setdefault(id(it.node), []).append(it)
+            good = any(rules.loop_completed(path, g[0].node) and all(
+                nested(it) is False for it in g) for g in passes.values()) or \
+                (not its and any(e.kind == 'iter-end' for e in path.events))
+            if not good:
+                ok_self, bad = False, bad or (path, len(path.events) - 1)
+            continue
+        # a new Concurrent of the leaves, in order
+        n_build += 1
+        made = [(i, e) for i, e in enumerate(path.events) if e.kind == 'call'
+                and isinstance(e.node, ast.Call)
+                and rules.text_at(path, e, e.node.func) == 'Concurrent']
+        good = len(made) == 1 and len(made[0][1].node.args) == 1 and isinstance(
+            made[0][1].node.args[0], ast.Starred) and isinstance(
+            made[0][1].node.args[0].value, ast.Name)
+        target = made[0][1].node.args[0].value.id if good else '?'
+        filled = 0
+        for it in its:
+            ops = [(i, e) for i, e in it.events() if e.kind == 'call'
+                   and isinstance(e.node, ast.Call)
+                   and isinstance(e.node.func, ast.Attribute)
+                   and isinstance(e.node.func.value, ast.Name)
+                   and e.node.func.value.id == target]
+            if not ops:
+                continue   # a pass that only looks for nested failures
+            filled += 1
+            good = good and len(ops) == 1
+            if not good:
+                break
+            pos, op = ops[0]
+            arg = ast.unparse(op.node.args[0]) if len(op.node.args) == 1 else '?'
+            inner = nested(it, upto=pos)
+            if inner is True:
+                good = op.node.func.attr == 'extend' and \
+                    arg == '%s.flattened().children' % it.var
+            elif inner is False:
+                good = op.node.func.attr == 'append' and arg == it.var
+            else:
+                good = False
+        building = [it for it in its if any(
+            e.kind == 'call' and isinstance(e.node, ast.Call)
+            and isinstance(e.node.func, ast.Attribute)
+            and isinstance(e.node.func.value, ast.Name) and e.node.func.value.id == target
+            for _i, e in it.events())]
+        good = good and bool(building) and rules.loop_completed(path, building[0].node) and \
+            len({id(it.node) for it in building}) == 1 and \
+            building[-1].stop <= (made[0][0] if made else 0)
+        if not good:
+            ok_build, bad = False, bad or (path, len(path.events) - 1)
+    check.instance('L', 'flattened', ok_self and ok_build and n_self > 0 and n_build > 0,
+                   where_fn(flat.fn), 'without nested failures the exception itself; '
+                   'otherwise Concurrent(*leafs): one in-order pass over the children, '
+                   'nested ones extended by their flattened children, leaves appended '
+                   '(%d + %d return paths)' % (n_self, n_build),
+                   path=rules.path_lines(*bad) if bad else None)
     check.stats.update(an.stats())
